@@ -5,7 +5,8 @@
    every attribute table and every block satisfying `Inv` (every entry was made by the Property
    constructor: name = norm literalname) -- a superset of the blocks reachable from the empty block by any
    finite operation sequence (reachable_inv).  No bound on block length or history length anywhere.      *)
-From CssV Require Import Base StyleDecl StyleDeclFacts.
+From CssV Require Import Base StyleDecl StyleDeclFacts StyleDeclText StyleDeclTextFacts.
+From CssV Require Tokenizer Skeleton SkeletonFacts.
 
 Section C11.
   Variable norm : str -> str.
@@ -219,6 +220,64 @@ Section C11.
   Proof. exact (StyleDeclFacts.attr_is_alias norm attrs settable). Qed.
 End C11.
 
+(* ---- style.cssText = text, through the declaration-block skeleton of C04 (CssV.Skeleton.decl_block).
+   Opaque per statement: what Property.cssText / CSSUnknownRule.cssText make of ONE run (decl_digest, at_digest). *)
+Section C11_text.
+  Variable norm : str -> str.
+  Variable attrs : list (str * str).
+  Variable settable : list str.
+  Variable decl_digest : list CssV.Tokenizer.tok -> option (str * val * bool).
+  Variable at_digest : list CssV.Tokenizer.tok -> option N.
+  Variable comment_id : CssV.Tokenizer.tok -> N.
+
+  Theorem settext_result : forall ro raising ts b,
+    step norm attrs settable ro (settext_op decl_digest at_digest comment_id raising ts) b =
+    if ro then Raised EReadonly
+    else if snd (text_items decl_digest at_digest comment_id ts) && raising then Raised ESyntax
+    else Done (map (mk_item norm) (fst (text_items decl_digest at_digest comment_id ts))) RNone.
+  Proof. exact (StyleDeclTextFacts.settext_result norm attrs settable decl_digest at_digest comment_id). Qed.
+
+  Theorem text_items_skeleton : forall ts,
+    text_items decl_digest at_digest comment_id ts =
+    (kept (map (digest_item decl_digest at_digest comment_id) (CssV.Skeleton.decl_block ts)),
+     existsb snd (map (digest_item decl_digest at_digest comment_id) (CssV.Skeleton.decl_block ts))).
+  Proof. exact (StyleDeclTextFacts.text_items_skeleton decl_digest at_digest comment_id). Qed.
+
+  (* every history that mixes assignments of ARBITRARY token lists with the other operations keeps the
+     invariant, hence every block-level theorem above applies along it *)
+  Theorem reachable_inv_with_text : forall ro ops b,
+    Inv norm b ->
+    Forall (fun o => op_ok norm o \/ exists raising ts, o = settext_op decl_digest at_digest comment_id raising ts) ops ->
+    Inv norm (run norm attrs settable ro ops b).
+  Proof. exact (StyleDeclTextFacts.reachable_inv_with_text norm attrs settable decl_digest at_digest comment_id). Qed.
+
+  Theorem settext_props : forall raising ts b b' r,
+    step norm attrs settable false (settext_op decl_digest at_digest comment_id raising ts) b = Done b' r ->
+    props_of b' = flat_map (decl_of norm) (fst (text_items decl_digest at_digest comment_id ts))
+    /\ keys b' = dedup_last (map name (flat_map (decl_of norm) (fst (text_items decl_digest at_digest comment_id ts))))
+    /\ r = RNone.
+  Proof. exact (StyleDeclTextFacts.settext_props norm attrs settable decl_digest at_digest comment_id). Qed.
+
+  Theorem text_items_app : forall d1 d2,
+    SkeletonFacts.Statements CssV.Skeleton.cls_decl d1 ->
+    text_items decl_digest at_digest comment_id (d1 ++ d2) =
+    (fst (text_items decl_digest at_digest comment_id d1) ++ fst (text_items decl_digest at_digest comment_id d2),
+     snd (text_items decl_digest at_digest comment_id d1) || snd (text_items decl_digest at_digest comment_id d2)).
+  Proof. exact (StyleDeclTextFacts.text_items_app decl_digest at_digest comment_id). Qed.
+
+  (* a junk declaration, whatever its tokens, leaves the block that of the text without it *)
+  Theorem settext_junk_same_block : forall d1 junk d2 b,
+    SkeletonFacts.Statements CssV.Skeleton.cls_decl d1 -> SkeletonFacts.JunkStmt CssV.Skeleton.cls_decl CssV.Skeleton.KDeclUnexpected junk ->
+    after b (step norm attrs settable false (settext_op decl_digest at_digest comment_id false (d1 ++ junk ++ d2)) b)
+    = map (mk_item norm) (fst (text_items decl_digest at_digest comment_id (d1 ++ d2))).
+  Proof. exact (StyleDeclTextFacts.settext_junk_same_block norm attrs settable decl_digest at_digest comment_id). Qed.
+End C11_text.
+
+Example settext_nonvacuous :
+  fst (text_items dg (fun _ => None) (fun _ => 7%N) (SkeletonFacts.decl_x ++ SkeletonFacts.junk_paren ++ SkeletonFacts.decl_z))
+  = [DDecl (s "x") 1%N false; DDecl (s "z") 1%N false].
+Proof. exact (proj1 settext_ex). Qed.
+
 (* ---- finite statements over the tables regenerated from cssproperties.py / profiles.py on every run *)
 
 (* the camel-case attribute of EVERY known property is settable and bound to its hyphenated name *)
@@ -339,6 +398,12 @@ Print Assumptions set_then_get_literal.
 Print Assumptions nodup_names_lits.
 Print Assumptions literal_eq_normalized.
 Print Assumptions alias_literal_lookup_refuted.
+Print Assumptions settext_result.
+Print Assumptions text_items_skeleton.
+Print Assumptions reachable_inv_with_text.
+Print Assumptions settext_props.
+Print Assumptions text_items_app.
+Print Assumptions settext_junk_same_block.
 Print Assumptions camel_alias.
 Print Assumptions toDOM_matches_code.
 Print Assumptions known_names_are_plain.
